@@ -18,6 +18,21 @@ def quick_set():
     ]
 
 
+def worker_copy_pairs(tier="quick"):
+    """(serial cfg, same cfg generated with the data flow of worker processes) -- see
+    gridbank.copying_call."""
+    P = dict(fpol="profile", pressure=True)
+    base = [
+        gb.cfg("cdn", dict(orthogonal=False, y_boundary_guards=0), label="cdn-nonorth-noguards", **P),
+        gb.cfg("cdn", dict(orthogonal=False), label="cdn-nonorth", **P),
+        gb.cfg("lsn", dict(orthogonal=True, y_boundary_guards=0), label="lsn-orth-noguards", **P),
+        gb.cfg("lsn", dict(orthogonal=True), label="lsn-orth", **P),
+    ]
+    if tier == "thorough":
+        base += [gb.cfg("udn", dict(orthogonal=False, y_boundary_guards=0), label="udn-nonorth-noguards", **P), gb.cfg("usn", dict(orthogonal=True, y_boundary_guards=1), label="usn-orth", **P)]
+    return [(c, dict(c, worker_copies=True, label=c["label"] + "[worker copies]")) for c in base]
+
+
 def thorough_set():
     P = dict(fpol="profile", pressure=True)
     out = quick_set()
